@@ -118,6 +118,21 @@ func init() {
 	const concDesc = "two harness goroutines x `ops` operations each from {resolve in shared scope / child scope / provider, CreateScope on scope / provider, Close of scope / provider, cancel of the scope's context}; constructors and Close methods yield; every context switch at those points and at blocking points is a solver-enumerated choice (G1 granularity); no panic, no deadlock (VM detects all-blocked), documented errors only, scoped identity, close counters, goroutine count"
 	const cbDesc = "a Close (of the resolving scope, its parent, or the provider) lands inside a user callback of an in-flight Get / Resolve / CreateScope - literally: the constructor or initializer calls Close; the operation must return a value or a disposed error, never panic, and nothing may leak"
 	const closedDesc = "scope tree of depth 3 plus a sibling; one closing event (Close of any node, or cancellation of the context given to CreateScope, watcher goroutines run to quiescence); afterwards every operation on every node of the closed subtree must report the disposed error and nodes outside keep working"
+	const relDesc = "N create-(nest)-use-close cycles (close via the scope, via its outer scope, or by cancelling the caller's context; nil / value / cancellable caller contexts; scoped or transient service; optional scoped initializer, optionally failing at a symbolic invocation); after each cycle: goroutine count back to baseline, scope context cancelled, scope and instances unreachable from the provider (VM heap walk through unexported fields; natively weak pointers + GC), from the parent scope and from the caller's context; cells reachable from the provider equal after every cycle"
+	properties = append(properties,
+		propertySpec{ID: "C14", Harnesses: []harnessSpec{
+			h("cont.H_Release", map[string]int{"cycles": 2, "faults": 0, "order_schemes": 2}, map[string]int{"cycles": 3, "faults": 0, "order_schemes": 2}, []string{"cycle_closed"}, 10, relDesc),
+			h("cont.H_Release", map[string]int{"cycles": 2, "faults": 1, "order_schemes": 1}, map[string]int{"cycles": 3, "faults": 1, "order_schemes": 2}, []string{"cycle_closed", "creation_failed"}, 10, relDesc),
+			h("cont.H_ReleaseChild", map[string]int{"cycles": 3, "order_schemes": 2}, map[string]int{"cycles": 4, "order_schemes": 2}, []string{"child_closed"}, 10, relDesc),
+		}},
+	)
+	properties = append(properties,
+		propertySpec{ID: "C15", Harnesses: []harnessSpec{
+			h("cont.H_Misuse", map[string]int{"order_schemes": 1}, map[string]int{"order_schemes": 2}, []string{"called"}, 30, "a table of 34 API calls with nil / zero / unregistered / mismatched / invalid arguments on a collection, an open provider+scope, and a closed provider+scope (call and state symbolic); no panic, the documented sentinel or typed error through errors.Is/As, collection still buildable after a rejected Add"),
+			h("cont.H_Faults", map[string]int{"order_schemes": 1}, map[string]int{"order_schemes": 2}, []string{"built", "build_failed", "resolution_failed"}, 30, "dependency chain 0->1->2 with symbolic lifetimes, registered directly or through nested modules; one constructor fails once (error or panic) at a symbolic invocation during Build or a resolution; error class and cause through BuildError / ResolutionError / ConstructorInvocationError / ModuleError, no caching of the failure, retry re-invokes and yields a fully wired value, everything constructed on the way closed exactly once"),
+			h("cont.H_Dispose", dsp(0, 2, 3, 0, 1, 1, 0), dsp(0, 2, 3, 1, 1, 1, 0), append([]string{"build_failed"}, dspCov...), 0, dspDesc),
+		}, Own: []string{"C15.", "C10.leaked", "C10.closed_twice", "C10.failed_build_leak", "C10.failed_scope_leak"}},
+	)
 	hc := h("cont.H_Conc", conc(1), conc(1), []string{"both_done"}, 10, concDesc)
 	hcb := h("cont.H_CloseInCallback", map[string]int{"order_schemes": 1}, map[string]int{"order_schemes": 2}, []string{"callback_closed"}, 10, cbDesc)
 	properties = append(properties,
